@@ -18,6 +18,7 @@ namespace Pistache::Async::VerifInst
         Promise<void> pv([](Resolver&, Rejection&) {});
         Promise<void> pw([](Resolver&, Rejection&) {});
         whenAll(p1, p2);
+        whenAll(p1, 5);               // a plain value among the arguments
         whenAny(p1, p2);
         std::vector<Promise<int>> vi;
         whenAll(vi.begin(), vi.end());
